@@ -82,6 +82,13 @@ ASM_GLOBS = (
     ("verif_objs", "Outer.Inner"),
     ("collections", "Counter.most_common"),
 )
+# Python-2 spellings the unpickler renames below protocol 3 (module only, module and name, and two
+# that are also real Python 3 modules)
+ASM_GLOBS_PY2 = (
+    ("copy_reg", "_reconstructor2"), ("Queue", "Queue"), ("itertools", "izip"), ("dbm", "whichdb"),
+    ("commands", "getoutput"), ("UserDict", "IterableUserDict"), ("itertools", "ifilterfalse"),
+    ("_elementtree", "Element"), ("exceptions", "StandardError"),
+)
 # the same attribute names in other modules: only for generators that allow a name to be rebound
 # once the earlier global is dead (asm rebind_dead_names)
 ASM_GLOBS_COLLIDING = ASM_GLOBS + (
